@@ -112,8 +112,16 @@ ApplyEvaluate(m, e, step) ==
               ELSE IF e.ret[1][1] # 2 * d0 THEN F("evaluate.start", step, <<2 * d0, ex>>, e.ret)
               ELSE IF k # 0 THEN F("evaluate.value", step, <<k, d0, ex>>, e.ret)
               ELSE Ok
-        f2 == IF f0 = Ok /\ ~e.same THEN F("evaluate.argsMutated", step, "unchanged", "changed") ELSE Ok IN
-    R(m1, f0 \o f1 \o f2, 0)
+        f2 == IF f0 = Ok /\ ~e.same THEN F("evaluate.argsMutated", step, "unchanged", "changed") ELSE Ok
+        \* C07 (sign) on the implementation's own numbers against the Boolean dense-time semantics
+        f3 == IF f0 = Ok /\ e.ret # <<>> /\ DenseBool(m.phi) /\ Monotone(e.ret)
+              THEN LET nn == d1 + Settle(m.phi) - d0 + 1
+                       st == SatC(m.phi, CellsOf(m1.fed, UsedVars(m1), d0, d1 + Settle(m.phi)), nn, m.cfg.S)
+                       badk == {kk \in 1..n : LET v == StepAt(e.ret, 2 * (d0 + kk - 1)) IN
+                                              v # NoVal /\ v # Bad /\ ((v > 0 /\ ~st[kk]) \/ (v < 0 /\ st[kk]))} IN
+                   IF badk = {} THEN Ok ELSE F("evaluate.sign", step, st, e.ret)
+              ELSE Ok IN
+    R(m1, f0 \o f1 \o f2 \o f3, 0)
 
 \* online update(): C05.  Supported: no future operator in the installed AST, no bounded until (precedes)
 OnlineCtOK(p) == ~HasOp(p, {"ev", "alw", "until", "evT", "alwT", "untilT", "next", "snext", "prev", "sprev", "rise", "fall", "precT"})
